@@ -11,7 +11,7 @@ from vlib import Check, Stream
 from checks import confgen as G
 from checks.confgen import hexs
 
-HARNESS, MODULE, WRAPS = "conf", "conf", ("popen", "pclose")
+HARNESS, MODULE, WRAPS = "conf", "conf", ("popen", "pclose", "open")
 
 INI_ALPHA = b"${}=[]#\n a"
 AC_ALPHA = b"</>'\"\\ \t#a1\n"
@@ -120,6 +120,72 @@ def spliced_cycle_docs(rng, n):
     return docs
 
 
+PATH_MAX = 4096
+
+
+def include_docs(rng, n):
+    """(mainpath, files) for qconfig_parse_file: directive lines of every length around PATH_MAX (the
+    text behind `@INCLUDE ` is PATH_MAX-12 .. PATH_MAX+2 bytes: file name padded with blanks, or a long
+    path), relative / absolute / backslash paths, missing files, empty names, files that include
+    themselves or each other (also several times per file), directives that are not at the beginning of
+    a line, main files that do not exist"""
+    out = []
+    inc = {b"/V/inc.conf": b"k=v\n[s]\nj=${k}\n", b"./inc.conf": b"k=rel\n"}
+    for main in (b"/V/main", b"main"):
+        for ln in range(PATH_MAX - 12, PATH_MAX + 3):
+            for name in (b"inc.conf", b"/V/inc.conf", b"\\inc.conf"):
+                pad = ln - len(name)
+                out.append((main, {main: b"a=1\n@INCLUDE " + name + b" " * pad + b"\nb=2\n", **inc}))
+                out.append((main, {main: b"@INCLUDE " + b" " * (pad // 2) + name + b"\t" * (pad - pad // 2), **inc}))
+            out.append((main, {main: b"@INCLUDE " + b"d/" * ((ln - 1) // 2) + b"f" * (ln - 2 * ((ln - 1) // 2)) + b"\nb=2\n", **inc}))
+            out.append((main, {main: b"@INCLUDE /" + b"p" * (ln - 1) + b"\n", **inc}))
+    # directory part of the main file close to PATH_MAX: dir + '/' + name must fit
+    for dl in range(PATH_MAX - 14, PATH_MAX - 6):
+        main = b"/" + b"q" * (dl - 1) + b"/m"
+        out.append((main, {main: b"@INCLUDE inc.conf\nz=1\n", main[:-1] + b"inc.conf": b"k=deep\n"}))
+    cyc = [
+        (b"/V/main", {b"/V/main": b"x=1\n@INCLUDE main\n"}),
+        (b"/V/main", {b"/V/main": b"@INCLUDE main\n@INCLUDE main\n"}),
+        (b"/V/main", {b"/V/main": b"@INCLUDE a\n", b"/V/a": b"k=1\n@INCLUDE b\n", b"/V/b": b"@INCLUDE a\n@INCLUDE a\n"}),
+        (b"/V/main", {b"/V/main": b"@INCLUDE a", b"/V/a": b"@INCLUDE /V/b", b"/V/b": b"@INCLUDE \\c", b"\\c": b"@INCLUDE a\nk=${k}x\n"}),
+        (b"main", {b"main": b"k=" + b"v" * 3000 + b"\n@INCLUDE main\n"}),
+        (b"/V/main", {b"/V/main": b"".join(b"@INCLUDE f%d\n" % i for i in range(300)), **{b"/V/f%d" % i: b"k%d=1\n" % i for i in range(300)}}),
+        (b"/V/main", {b"/V/main": b"".join(b"@INCLUDE f\n" for i in range(256)) + b"z=1\n", b"/V/f": b"k=1\n"}),
+        (b"/V/main", {b"/V/main": b"".join(b"@INCLUDE f\n" for i in range(257)) + b"z=1\n", b"/V/f": b"k=1\n"}),
+    ]
+    out += cyc
+    misc = [
+        (b"/V/none", {}), (b"", {}), (b"/V/main", {b"/V/main": b""}), (b"/V/main", {b"/V/main": b"@INCLUDE "}),
+        (b"/V/main", {b"/V/main": b"@INCLUDE \n"}), (b"/V/main", {b"/V/main": b"@INCLUDE   \t \nk=1\n"}),
+        (b"/V/main", {b"/V/main": b"@INCLUDE missing\nk=1\n"}), (b"/V/main", {b"/V/main": b"@INCLUDE /\n"}),
+        (b"/V/main", {b"/V/main": b"k=1 @INCLUDE a\n @INCLUDE a\n@INCLUDEa\n@INCLUDE a", b"/V/a": b"j=2"}),
+        (b"/V/main", {b"/V/main": b"@INCLUDE a\n@INCLUDE a.b\nv=@INCLUDE a\n", b"/V/a": b"j=2\n", b"/V/a.b": b"i=3\n"}),
+        (b"/V/main", {b"/V/main": b"@INCLUDE e\nk=1\n", b"/V/e": b""}),
+        (b"/V/main", {b"/V/main": b"[s]\n@INCLUDE a\nk=${s.j}\n", b"/V/a": b"j=2"}),
+        (b"m", {b"m": b"@INCLUDE a\n", b"./a": b"r=1\n", b"a": b"wrong=1\n"}),
+        (b"d/e/m", {b"d/e/m": b"@INCLUDE a\n@INCLUDE ../a\n", b"d/e/a": b"r=1\n", b"d/e/../a": b"s=1\n"}),
+        (b"/m", {b"/m": b"@INCLUDE a\n", b"//a": b"r=1\n", b"/a": b"s=1\n"}),
+    ]
+    out += misc
+    # grammar documents spread over files, then damaged
+    for _ in range(n):
+        sep = rng.choice(b"==: ")
+        main = rng.choice([b"/V/main.conf", b"main.conf"])
+        files = G.split_includes(rng, G.render_ini_lines(rng, G.gen_ini(rng, sep, {}), sep), main, p=0.3)
+        keys = list(files)
+        for _ in range(rng.choice([0, 1, 1, 2])):
+            k = rng.choice(keys)
+            r = rng.random()
+            if r < 0.3 and k != main:
+                del files[k]; keys.remove(k)                       # missing file
+            elif r < 0.5:
+                files[k] += b"@INCLUDE " + rng.choice(keys).rsplit(b"/", 1)[-1] + b"\n"   # a cycle
+            else:
+                files[k] = mutate(rng, files[k], b"@INCLUDE \n/\\ a=")
+        out.append((main, files, sep))
+    return out
+
+
 def nesting_docs():
     docs = []
     for depth in (10, 254, 255, 256, 257, 300):
@@ -158,6 +224,8 @@ def parser_streams(check):
     sts.append(Stream("ini-sampled-short", ops))
     # --- hand-made families
     sts.append(Stream("ini-self-referential", [G.ini_op(0x3d, d, INI_ENV) for d in self_ref_docs()]))
+    sts.append(Stream("ini-include-files", [G.inif_op(d[2] if len(d) > 2 else 0x3d, d[0], d[1])
+                                            for d in include_docs(rng, 600 if tier == "quick" else 15000)]))
     sts.append(Stream("ini-spliced-cycles", [G.ini_op(0x3d, d, {**INI_ENV, b"E": b"$"})
                                              for d in spliced_cycle_docs(rng, 150 if tier == "quick" else 3000)]))
     tbl = AC_TABLES[0]
@@ -192,13 +260,13 @@ def parser_judge(op, line):
     """C17's oracle for the two parsers: the call returned (no watchdog timeout, no sanitizer abort —
     a missing line is reported by vlib as a crash) with a result or an error"""
     w = op.split(None, 1)[0]
-    if w not in ("ini", "ac"):
+    if w not in ("ini", "inif", "ac"):
         return None
     if line.startswith("timeout"):
         return "parser did not return within the watchdog time"
     if line.startswith("fault"):
         return None          # only the model prints this
-    if w == "ini" and not (line.startswith("ok ") or line == "null"):
+    if w in ("ini", "inif") and not (line.startswith("ok ") or line == "null"):
         return "neither a table nor NULL: " + line[:80]
     if w == "ac" and G.parse_ac_result(line) is None:
         return "neither a count nor an error: " + line[:80]
@@ -207,6 +275,9 @@ def parser_judge(op, line):
 
 def parser_classify(op, detail):
     w = op.split()
+    if w and w[0] == "inif":
+        return "qconfig_parse_file:" + ("timeout" if "watchdog" in detail or "imeout" in detail.lower() else
+                                        "crash" if "died" in detail else "result")
     if w and w[0] == "ini":
         if "watchdog" in detail or "TIMEOUT" in detail or "timeout" in detail:
             return "qconfig._parsestr:self-referential-table-value"
@@ -224,7 +295,7 @@ class TheCheck(Check):
     wraps = WRAPS
     rule = ("documents fed to qconfig_parse_str / qaconf parse() in exactly sized heap buffers (ASan+UBSan+LSan, "
             "per-call alarm) and to the Lean model; distinct_nontrivial = distinct documents")
-    assumptions = ["parser half of C17 only; qconfig_parse_file/@INCLUDE is out of model",
+    assumptions = ["parser half of C17 only; qconfig_parse_file: include loop modelled at list level over path->content (iniParseFile_total); its buffer handling is covered by ASan on the include streams",
                    "files contain no NUL byte in the generated streams (the model handles them like fgets does)"]
 
     def regenerate(self):
